@@ -1,0 +1,117 @@
+//go:build verif
+
+// Contracts for package quadtree, read by the VC generator in /verif (govc). Comments only.
+
+package quadtree
+
+// ---------------------------------------------------------------- the k-nearest max-heap
+// isHeap: every item's distance is at most its parent's (parent of i is ((i+1)>>1)-1)
+//@ spec isHeap(h maxHeap) bool = forall i :: 1 <= i && i < len(h) ==> h[(i+1)/2 - 1].distance >= h[i].distance
+//@ spec noNaNs(h maxHeap) bool = forall i :: 0 <= i && i < len(h) ==> !isnan(h[i].distance)
+
+//@ func (*maxHeap).Push(h, point, distance)
+//@   requires h != nil && len(*h) < cap(*h) && isHeap(*h) && noNaNs(*h) && !isnan(distance)
+//@   ensures len(*h) == old(len(*h)) + 1 && (*h).ref == old((*h).ref) && (*h).off == old((*h).off) && cap(*h) == old(cap(*h))
+//@   ensures isHeap(*h) && noNaNs(*h)
+//@   loop 1: invariant 0 <= i && i < len(*h) && len(*h) == old(len(*h)) + 1 && (*h).ref == old((*h).ref) && (*h).off == old((*h).off) && cap(*h) == old(cap(*h)) && noNaNs(*h)
+//@   loop 1: invariant (*h)[i].distance == distance
+//@   loop 1: invariant forall j :: 1 <= j && j < len(*h) && j != i ==> (*h)[(j+1)/2 - 1].distance >= (*h)[j].distance
+//@   loop 1: invariant forall j :: 1 <= j && j < len(*h) && (j+1)/2 - 1 == i && i >= 1 ==> (*h)[(i+1)/2 - 1].distance >= (*h)[j].distance
+
+//@ func (*maxHeap).Pop(h)
+//@   requires h != nil && len(*h) >= 1 && isHeap(*h) && noNaNs(*h)
+//@   ensures len(*h) == old(len(*h)) - 1 && (*h).ref == old((*h).ref) && (*h).off == old((*h).off) && cap(*h) == old(cap(*h))
+//@   ensures isHeap(*h) && noNaNs(*h)
+//@   loop 1: invariant 0 <= i && i < len(mh) && len(mh) == old(len(*h)) - 1 && mh.ref == old((*h).ref) && mh.off == old((*h).off) && same(*h, mh) && noNaNs(mh) && !isnan(lastItem.distance)
+//@   loop 1: invariant mh[i].distance == lastItem.distance
+//@   loop 1: invariant forall j :: 1 <= j && j < len(mh) && (j+1)/2 - 1 != i ==> mh[(j+1)/2 - 1].distance >= mh[j].distance
+//@   loop 1: invariant forall j :: 1 <= j && j < len(mh) && (j+1)/2 - 1 == i && i >= 1 ==> mh[(i+1)/2 - 1].distance >= mh[j].distance
+
+// ---------------------------------------------------------------- visitors (called by visit.Visit only on nodes holding a value)
+
+// the k-nearest visitor keeps at most k items in a heap of capacity k+1: the Push precondition
+// len < cap holds at its only call site, and the heap invariant is maintained
+//@ func (*nearestVisitor).Visit(v, n)
+//@   purefuncs
+//@   requires n != nil && n.Value != nil && v.closestBound != nil
+//@   requires v.k >= 1 && len(v.maxHeap) <= v.k && cap(v.maxHeap) == v.k + 1 && isHeap(v.maxHeap) && noNaNs(v.maxHeap) && !isnan(v.maxDistSquared)
+//@   ensures len(v.maxHeap) <= v.k && cap(v.maxHeap) == v.k + 1 && isHeap(v.maxHeap) && noNaNs(v.maxHeap) && v.k == old(v.k) && v.closestBound == old(v.closestBound) && !isnan(v.maxDistSquared)
+
+//@ func (*findVisitor).Visit(v, n)
+//@   purefuncs
+//@   requires n != nil && n.Value != nil && v.closestBound != nil
+//@   ensures v.closestBound == old(v.closestBound)
+
+//@ func (*inBoundVisitor).Visit(v, n)
+//@   purefuncs
+//@   requires n != nil && n.Value != nil && v.bound != nil
+//@   ensures v.bound == old(v.bound)
+
+// ---------------------------------------------------------------- insertion / removal helpers
+//@ func (*Quadtree).add(q, n, p, point, left, right, bottom, top)
+//@   requires n != nil
+//@ func removeNode(n)
+//@   requires n != nil
+
+// removal needs the pointer to remove to be non-nil (its Point() is taken)
+//@ func (*Quadtree).Remove(q, p, eq)
+//@   purefuncs
+//@   requires p != nil
+
+// ---------------------------------------------------------------- the traversal
+//@ func (visitor).Bound(v)
+//@   pure
+//@   opt implrequires=assume
+//@   ensures result != nil
+//@ func (visitor).Point(v)
+//@   pure
+//@ func (visitor).Visit(v, n)
+//@   opt implrequires=assume
+//@   requires n != nil && n.Value != nil
+
+//@ func (*findVisitor).Bound(v)
+//@   pure
+//@   requires v.closestBound != nil
+//@   ensures result == v.closestBound
+//@ func (*nearestVisitor).Bound(v)
+//@   pure
+//@   requires v.closestBound != nil
+//@   ensures result == v.closestBound
+//@ func (*inBoundVisitor).Bound(v)
+//@   pure
+//@   requires v.bound != nil
+//@   ensures result == v.bound
+//@ func (*findVisitor).Point(v)
+//@   pure
+//@ func (*nearestVisitor).Point(v)
+//@   pure
+//@ func (*inBoundVisitor).Point(v)
+//@   pure
+
+// visit.Visit is only ever entered on an existing node and recurses only into existing children
+//@ func (*visit).Visit(v, n, left, right, bottom, top)
+//@   requires n != nil && v.visitor != nil
+//@   ensures v.visitor == old(v.visitor)
+//@   loop 1: invariant v.visitor != nil && v.visitor == old(v.visitor)
+
+// ---------------------------------------------------------------- C19: queries never write the tree
+// `nowrite`: a static frame obligation — no store/append/copy in the function or anything it can
+// call (all visitors, the heap, planar.DistanceSquared) targets a node, its Children array or the
+// Quadtree header. Filters are pure (`purefuncs`), Pointer.Point is pure (interface contract).
+//@ func (*Quadtree).Find(q, p)
+//@   nowrite P:quadtree.node, P:quadtree.Quadtree
+//@ func (*Quadtree).Matching(q, p, f)
+//@   purefuncs
+//@   nowrite P:quadtree.node, P:quadtree.Quadtree
+//@ func (*Quadtree).KNearest(q, buf, p, k, maxDistance)
+//@   requires k <= 1073741824
+//@   nowrite P:quadtree.node, P:quadtree.Quadtree
+//@ func (*Quadtree).KNearestMatching(q, buf, p, k, f, maxDistance)
+//@   purefuncs
+//@   requires k <= 1073741824
+//@   nowrite P:quadtree.node, P:quadtree.Quadtree
+//@ func (*Quadtree).InBound(q, buf, b)
+//@   nowrite P:quadtree.node, P:quadtree.Quadtree
+//@ func (*Quadtree).InBoundMatching(q, buf, b, f)
+//@   purefuncs
+//@   nowrite P:quadtree.node, P:quadtree.Quadtree
